@@ -8,6 +8,8 @@ import pipeline
 import cc
 
 ASSUME = [
+    "every fifth plain command is a multi-line '+' command whose text already contains its final '.' line and CR LF: it is written "
+    "verbatim plus CR LF like any other",
     "the two event kinds of the model go over the wire as EVA / EVB, as STREAM / STREAM_BW or as CIRC_MINOR / CIRC (every other "
     "execution uses a pair of Tor's names of which one is the beginning of the other)",
     "liveness (C01, C03 design checks ControlConn_Live_*): under weak fairness of Tor's own steps - it goes on sending the lines of what "
